@@ -862,6 +862,25 @@ class Super:
         fn._partial = partial
         return d
 
+    def phi_values(self, e):
+        """The values a ('phi', ctx id, local) merges - one per defining statement - or None when a definition is not a plain
+        assignment or call in that body (partial writes, mutable borrows)."""
+        e = strip(e)
+        if not (isinstance(e, tuple) and len(e) == 3 and e[0] == "phi" and isinstance(e[1], int) and 0 <= e[1] < len(self.ctxs)):
+            return None
+        ctx = self.ctxs[e[1]]
+        fn = ctx.fn
+        defs = self._defs(fn).get(e[2], [])
+        if not defs or e[2] in fn._partial or e[2] in fn._mutborrowed:
+            return None
+        out = []
+        for d in defs:
+            if d[0] == "stmt":
+                out.append(self.resolve_rv(ctx, fn.blocks[d[1]]["stmts"][d[2]]["rv"], None))
+            else:
+                out.append(self.resolve_call_value(ctx, d[1]))
+        return out
+
     def resolve_local(self, ctx, l):
         if l in ctx.memo:
             return ctx.memo[l]
